@@ -3,4 +3,4 @@ From Coq Require Import Extraction ExtrOcamlBasic ExtrOcamlString.
 From Cb Require Import C18.Model.
 Extraction Language OCaml.
 Extraction "C18/c18_model.ml" start_program load handle_import resolve file_path_of search_paths lookup
-  find_ctor empty_tables parser_impls handle_inline run_ops block eval.
+  find_ctor empty_tables parser_impls handle_inline run_ops block eval assign.
